@@ -399,6 +399,7 @@ def write_replay(prop, v, work, tier, seed):
             rec.update(rr)
         except Exception as e:
             rec['replay_error'] = '%s\n%s' % (e, traceback.format_exc())
+    rec.pop('trace_last', None)
     with open(path, 'w') as fh:
         json.dump(rec, fh, indent=1, default=str)
     rec['path'] = path
